@@ -51,6 +51,9 @@ pub struct Obs {
     pub disposes_via_run_now: Option<Vec<u32>>,
     /// try_into_sendable: Some(Ok(shape)) / Some(Err(()))
     pub sendable: Option<Result<Vec<Vec<usize>>, ()>>,
+    /// after a rejected try_into_sendable: (a dispatch of the dispatcher handed back completed, run counters of that
+    /// dispatch, its identified layout, a second conversion succeeded)
+    pub after_rejected_conversion: Option<(bool, Vec<u32>, Option<Layout>, bool)>,
     pub shape: Vec<Vec<usize>>,
     pub ntl: usize,
     /// world side of setup: for every subset (bit 0 = A, bit 1 = C) of pre-inserted sentinels, the values of
@@ -228,7 +231,18 @@ pub fn observe(ops: &[Op], resmap: &[u8], need: Need) -> Obs {
         }
         o.sendable = Some(match d.try_into_sendable() {
             Ok(sd) => Ok(sd.verif_layout()),
-            Err(_) => Err(()),
+            Err(mut back) => {
+                // a rejected conversion hands the ORIGINAL dispatcher back: it goes on working, thread-local systems
+                // included, and a second conversion is rejected again
+                let before = ctx.runs.lock().unwrap().clone();
+                let r = catch_unwind(AssertUnwindSafe(|| back.dispatch(&world)));
+                let after = ctx.runs.lock().unwrap().clone();
+                let layout_back = identify(&mut back, &ctx, &world).ok();
+                let again = back.try_into_sendable().is_ok();
+                o.after_rejected_conversion = Some((r.is_ok(), after.iter().zip(before.iter()).map(|(a, b)| a - b).collect(), layout_back, again));
+                ctx.take_log();
+                Err(())
+            }
         });
     }
     if need.setup_dispose && all_ok(&o) {
